@@ -40,7 +40,9 @@ Definition bind_args {V} (ps:list param) (args:list V) : option (list (string * 
 (* ---- node expressions with function calls ---- *)
 Inductive nexpr :=
 | NThis | NConst (t:term) | NPath (p:path)
-| NFunc (f:N) (args:list nexpr).
+| NFunc (f:N) (args:list nexpr)
+| NUnion (es:list nexpr) | NInter (es:list nexpr)
+| NFilter (shape:N) (e:nexpr).     (* sh:filterShape / sh:nodes; conformance to the shape is an oracle row of the table *)
 
 (* oracle: function f applied to the argument list -> its result (None: no solution) *)
 Definition fn_table := list (N * list term * option term).
@@ -71,6 +73,17 @@ Fixpoint eval_nexpr (fuel:nat) (T:fn_table) (g:graph) (e:nexpr) (a:term) : res (
           (* a required argument without values: no result at all *)
           if existsb (fun s => match s with [] => true | _ => false end) sets then Ok []
           else Ok (tdedup (flat_map (fun tuple => match fn_lookup T f tuple with Some (Some r) => [r] | _ => [] end) (product sets))))
+    | NUnion es =>
+        bind (mapM (fun x => eval_nexpr fuel' T g x a) es) (fun sets => Ok (tdedup (List.concat sets)))
+    | NInter es =>
+        bind (mapM (fun x => eval_nexpr fuel' T g x a) es) (fun sets =>
+          match sets with
+          | [] => Ok []
+          | s0 :: rest => Ok (tdedup (filter (fun x => forallb (fun s => tmem x s) rest) s0))
+          end)
+    | NFilter k e' =>
+        bind (eval_nexpr fuel' T g e' a) (fun vals =>
+          Ok (tdedup (filter (fun n => match fn_lookup T k [n] with Some (Some _) => true | _ => false end) vals)))
     end
   end.
 
